@@ -40,7 +40,7 @@ def run_fuzz_target(t, exe, tier, seed, workdir, root, out, ncpu):
         else:
             argv += ["-runs=-1", "-max_total_time=%d" % t["thorough_s"]]
         argv += [os.path.join(d, "corpus"), corpus_dir]
-        cpu = k % (os.cpu_count() or 1)
+        cpu = (k + (os.getpid() * 7 if ncpu < (os.cpu_count() or 1) else 0)) % (os.cpu_count() or 1)
         log = open(os.path.join(d, "log.txt"), "wb")
         p = subprocess.Popen(argv, stdout=log, stderr=subprocess.STDOUT, env=env,
                              preexec_fn=(lambda c=cpu: os.sched_setaffinity(0, {c})))
